@@ -45,3 +45,26 @@ Proof.
   rewrite Hlen. apply (wep_roundtrip pw i0 i1 i2 kid (xorl m d)).
   destruct m as [|x m]; [contradiction|]. destruct d as [|y d]; [discriminate Hl|]. discriminate.
 Qed.
+
+(* TKIP as libtins checks it (ICV only, Michael never verified): the same forgery, over MSDU and Michael field *)
+Theorem tkip_bitflip_accepted ta tk b0 b1 b2 b3 b4 b5 b6 b7 m mic d dm key : m <> [] -> length mic = 8%nat ->
+  Forall (fun x => 0 <= x < 256) (m ++ mic) -> Forall (fun x => 0 <= x < 256) (d ++ dm) ->
+  length m = length d -> length dm = 8%nat ->
+  tkip_key ta tk [b0; b1; b2; b3; b4; b5; b6; b7] = Ok key ->
+  let pt := m ++ mic ++ le32 (crc32 (m ++ mic)) in
+  let ct := xorl (keystream (length pt) (ksa key) 0 0) pt in
+  tkip_decrypt ta tk ([b0; b1; b2; b3; b4; b5; b6; b7] ++ xorl ct ((d ++ dm) ++ le32 (crc_delta (d ++ dm)))) = Ok (Some (xorl m d)).
+Proof.
+  intros Hne Hmic Hb Hbd Hl Hdm Hk pt ct. subst ct pt.
+  assert (Hl2 : length (m ++ mic) = length (d ++ dm)) by (rewrite !app_length; lia).
+  rewrite (app_assoc m mic). rewrite <- icv_forgery by assumption.
+  rewrite (xorl_app m d mic dm Hl).
+  assert (Hlen : length ((m ++ mic) ++ le32 (crc32 (m ++ mic))) =
+                 length ((xorl m d ++ xorl mic dm) ++ le32 (crc32 (xorl m d ++ xorl mic dm)))).
+  { rewrite !app_length, !xorl_length, <- Hl, Hmic, Hdm, !Nat.min_id. reflexivity. }
+  rewrite Hlen, <- (app_assoc (xorl m d)).
+  apply (tkip_roundtrip ta tk b0 b1 b2 b3 b4 b5 b6 b7 (xorl m d) (xorl mic dm) key).
+  - destruct m as [|x m]; [contradiction|]. destruct d as [|y d]; [discriminate Hl|]. discriminate.
+  - rewrite xorl_length, Hmic, Hdm. reflexivity.
+  - exact Hk.
+Qed.
